@@ -247,7 +247,7 @@ func c10Case(env *Env, tape *sim.Tape) *CaseOut {
 }
 
 func c10Search(s *Search) {
-	for i := uint64(0); s.More(); i++ {
+	for i := s.Base(); s.More(); i++ {
 		if !s.Mine(int(i)) {
 			continue
 		}
